@@ -179,7 +179,7 @@ def run(P, rep, tier):
                 if isinstance(d_, Unk) and d_.src and d_.src[0] == 'binop' and d_.src[1] == 'Mult':
                     if not (is_concrete(d_.src[2]) and concrete(d_.src[2]) == b' '):
                         probs7.add('indentation uses %r, not ASCII spaces' % (concrete(d_.src[2]),))
-                elif isinstance(d_, Unk) and not any(x.src and x.src[0] == 'summary-elem' and 'split_lines' in x.src[1] for x in src_chain(d_)):
+                elif isinstance(d_, Unk) and not any(x.src and x.src[0] in ('summary-elem', 'summary') and 'split_lines' in str(x.src[1]) for x in src_chain(d_)):
                     probs7.add('indentation precedes pieces that are not lines of split_lines(content, newline)')
             for e in evs:
                 if e.kind == 'json.dumps':
@@ -244,6 +244,11 @@ def run(P, rep, tier):
     r11 = rep.rule('C02-R11', 'line endings written for content without a declared type are detected from the first line only', reference=1)
     from sa.props.common import first_line_detection
     first_line_detection(P, rep, r11)
+    r12 = rep.rule('C02-R12', 'the lines that receive indentation are exactly the lines of the content on the section newline '
+                   '(the rules of C16 hold for split_lines)', reference=1)
+    from sa.props.common import split_lossless_rule
+    split_lossless_rule(P, rep, r12, tier, 'indentation spaces end up inside lines (e.g. after a bare CR) or the written bytes '
+                        'are not the encoded content')
     r6 = rep.rule('C02-R6', 'the newline the writer appends/checks is BOM-stripped in the section encoding', reference=2)
     from sa.props import c15
     strip = P.func('pydiffx.utils.text', 'strip_bom')
